@@ -13,7 +13,7 @@ ATIME_NS, MTIME_NS = 1300000000111222333, 1200000000444555666
 OLD_MTIME_NS = 1100000000000000007
 PLAIN = b"attrs payload\n" * 40
 # how the (decompressed) data ends: in data, in all-zero 8 KiB blocks after data, or nothing but such blocks
-PLAINS = {"data": PLAIN, "hole": (b"\x01attrs block \xff" * 512)[:8192] + bytes(16384), "allhole": bytes(16384)}
+PLAINS = {"data": PLAIN, "hole": (b"\x01attrs block \xff" * 600)[:8192] + bytes(16384), "allhole": bytes(16384)}
 OLD = b"OLD TARGET CONTENT\n"
 
 def make_scenarios(rng, rounds, mode_pool):
